@@ -645,3 +645,15 @@ Proof.
   assert (H : forallb (fun a' => Nat.eqb (reuse_overlap 1 a') 1764) (zrange 2 5) = true) by (vm_compute; reflexivity).
   rewrite forallb_forall in H. intros a' Ha. apply Nat.eqb_eq. auto.
 Qed.
+
+(** * The low part of [_mod]'s mask: r_modb = random._randbelow(stype, b, bits=True)
+
+    The row of [_mod] counts  b * r_divb - r_modb  as uniform on b * 2^k' consecutive values; that needs r_modb uniform
+    on [0, b).  Uniformity of the rejection sampler is proved in RandomFns.v (C33: randbelow_uniform_one_pass,
+    randbelow_pass_step) for the model whose restart after a public rejection at bit position i keeps x[:i] and draws
+    k - i fresh bits ([firstn i' x ++ nb] with [draw (k - i')]).  The translator reads the restart statement
+    [x[i+c:] = runtime.random_bits(sectype, k - i - d)] of the source and emits (c, d); the obligation is (c, d) = (0, 0):
+    a revealed bit must never be kept. *)
+Definition randbelow_restart_model : Z * Z := (0, 0).
+Definition randbelow_restart_ok (src : Z * Z) : bool :=
+  (fst src =? fst randbelow_restart_model) && (snd src =? snd randbelow_restart_model).
